@@ -94,6 +94,27 @@ def run(chk, tier):
                 else:
                     chk.fail('R2', '%s:some%d:containment' % (pat, i), fn_loc(fn), '%s::next yields an item whose declared extent is not shown to lie inside the '
                              'buffer (new cursor %s may pass the end): a truncated object would be reported' % (pat, vshow(wr[0][3])[:80]), key='R2|%s|containment' % pat)
+                # the step is the item's own extent: the object's length field (read from the buffer at the cursor) / one 4-octet label entry
+                if new is not None:
+                    step = new.add(old, -1)
+                    if pat == 'MplsLabelStackIter':
+                        step_ok = step.isconst() and step.c == 4
+                        want_step = 'exactly 4 octets (one label stack entry)'
+                    else:
+                        step_ok = (not step.isconst()) and step.c == 0 and len(step.t) == 1 and list(step.t.values()) == [1] and 'self.buf' in list(step.t)[0]
+                        want_step = 'the length field of the object at the cursor'
+                    if step_ok:
+                        chk.ok('R2', '%s:some%d:step' % (pat, i), 'cursor advances by %s' % want_step)
+                    else:
+                        chk.fail('R2', '%s:some%d:step' % (pat, i), fn_loc(fn), '%s::next advances its cursor by %s; it must advance by %s, or the following items are read from the middle of this one' % (
+                            pat, step, want_step), key='R2|%s|step' % pat)
+                if pat == 'MplsLabelStackIter':
+                    bw = [e for e in o.st.events if e[0] == 'write' and e[2] == 'bos']
+                    if len(bw) == 1 and 'self.buf' in vshow(eng.purify(bw[0][3], o.st)):
+                        chk.ok('R2', '%s:some%d:bos' % (pat, i), 'bottom-of-stack flag of the yielded entry is remembered')
+                    else:
+                        chk.fail('R2', '%s:some%d:bos' % (pat, i), fn_loc(fn), 'MplsLabelStackIter::next yields an entry without recording its bottom-of-stack bit: the walk continues past the end of the label stack',
+                                 key='R2|MplsLabelStackIter|bos')
                 # the yielded slice is a sub-slice of the buffer
                 pay = vshow(eng.purify(v[4][0], o.st))
                 if re.match(r'subslice\(self\.buf', pay):
